@@ -125,7 +125,7 @@ func runCLI(w *out.W, tier string) {
 	w.Rule = "a case is non-trivial when SQLite accepted the schema and `atlas schema inspect` ran; distinct by feature-tag set"
 	n := 30
 	if tier == "thorough" {
-		n = 600
+		n = 400
 	}
 	base, err := os.MkdirTemp("", "c03cli")
 	if err != nil {
